@@ -35,6 +35,7 @@ type Files struct {
 
 var dirCounter int
 var dirCache = map[string]string{}
+var dirOrder []string // cache keys in insertion order
 
 func contentKey(f Files, processorsDir string) string {
 	h := sha1.New()
@@ -73,6 +74,19 @@ func Dir(f Files, processorsDir string) (string, error) {
 	}
 	Point(root, processorsDir)
 	dirCache[ck] = root
+	dirOrder = append(dirOrder, ck)
+	// bound the cache: enumerations with millions of distinct configurations would otherwise
+	// fill the scratch file system; the engines built from the oldest directories are long
+	// gone (a directory is only read while its engine is loaded)
+	if len(dirOrder) > 3000 {
+		for _, old := range dirOrder[:1500] {
+			if r, ok := dirCache[old]; ok {
+				_ = os.RemoveAll(r)
+				delete(dirCache, old)
+			}
+		}
+		dirOrder = append([]string{}, dirOrder[1500:]...)
+	}
 	return root, nil
 }
 
